@@ -404,16 +404,15 @@ Fixpoint cls_late_all (s : sig) (st : cstate) (ups : list (name * val)) : result
   | [] => Ok st
   | (k, v) :: r => match cls_late_one s st k v with Ok st' => cls_late_all s st' r | Err e => Err e end
   end.
-(* _call_init: positional when the user __init__ has *args, otherwise everything by keyword.
+(* _call_init: the positional parameters by position (so positional-only parameters of the user
+   class work), then the *args values, everything else by keyword.
    None: the object is still partial, the user __init__ has not run. *)
 Definition cls_init_call (s : sig) (st : cstate) : option call :=
   if negb (all_required_present s (cattrs st)) then None else
-  if has_va s then
-    match list_args (pos s) (cattrs st) with
-    | (Some la, K) => Some {| cpos := la ++ cvattr st; ckw := K |}
-    | (None, _) => None
-    end
-  else Some {| cpos := []; ckw := cattrs st |}.
+  match list_args (pos s) (cattrs st) with
+  | (Some la, K) => Some {| cpos := la ++ cvattr st; ckw := K |}
+  | (None, _) => None
+  end.
 
 (* ---- 2c. the generated __init__ signature ---------------------------------------------------------- *)
 (* Signature.to_schema: fields in the order pos, *args, kwonly, **kwargs plus the init_arg_list
